@@ -13,66 +13,18 @@ Gen/Consts.vos Gen/Consts.vok Gen/Consts.required_vos: Gen/Consts.v
 Model/NameWire.vo Model/NameWire.glob Model/NameWire.v.beautified Model/NameWire.required_vo: Model/NameWire.v Base/Res.vo Base/Octets.vo Gen/Consts.vo
 Model/NameWire.vio: Model/NameWire.v Base/Res.vio Base/Octets.vio Gen/Consts.vio
 Model/NameWire.vos Model/NameWire.vok Model/NameWire.required_vos: Model/NameWire.v Base/Res.vos Base/Octets.vos Gen/Consts.vos
-Model/Pool.vo Model/Pool.glob Model/Pool.v.beautified Model/Pool.required_vo: Model/Pool.v 
-Model/Pool.vio: Model/Pool.v 
-Model/Pool.vos Model/Pool.vok Model/Pool.required_vos: Model/Pool.v 
-Model/PoolTrace.vo Model/PoolTrace.glob Model/PoolTrace.v.beautified Model/PoolTrace.required_vo: Model/PoolTrace.v Model/Pool.vo
-Model/PoolTrace.vio: Model/PoolTrace.v Model/Pool.vio
-Model/PoolTrace.vos Model/PoolTrace.vok Model/PoolTrace.required_vos: Model/PoolTrace.v Model/Pool.vos
 Proofs/NameWireP.vo Proofs/NameWireP.glob Proofs/NameWireP.v.beautified Proofs/NameWireP.required_vo: Proofs/NameWireP.v Base/ListX.vo Model/NameWire.vo Spec/NameWireS.vo Spec/NameRepr.vo
 Proofs/NameWireP.vio: Proofs/NameWireP.v Base/ListX.vio Model/NameWire.vio Spec/NameWireS.vio Spec/NameRepr.vio
 Proofs/NameWireP.vos Proofs/NameWireP.vok Proofs/NameWireP.required_vos: Proofs/NameWireP.v Base/ListX.vos Model/NameWire.vos Spec/NameWireS.vos Spec/NameRepr.vos
 Proofs/NameWireSP.vo Proofs/NameWireSP.glob Proofs/NameWireSP.v.beautified Proofs/NameWireSP.required_vo: Proofs/NameWireSP.v Base/ListX.vo Spec/NameWireS.vo
 Proofs/NameWireSP.vio: Proofs/NameWireSP.v Base/ListX.vio Spec/NameWireS.vio
 Proofs/NameWireSP.vos Proofs/NameWireSP.vok Proofs/NameWireSP.required_vos: Proofs/NameWireSP.v Base/ListX.vos Spec/NameWireS.vos
-Proofs/PoolInv.vo Proofs/PoolInv.glob Proofs/PoolInv.v.beautified Proofs/PoolInv.required_vo: Proofs/PoolInv.v Model/Pool.vo Spec/PoolS.vo Proofs/PoolLemmas.vo
-Proofs/PoolInv.vio: Proofs/PoolInv.v Model/Pool.vio Spec/PoolS.vio Proofs/PoolLemmas.vio
-Proofs/PoolInv.vos Proofs/PoolInv.vok Proofs/PoolInv.required_vos: Proofs/PoolInv.v Model/Pool.vos Spec/PoolS.vos Proofs/PoolLemmas.vos
-Proofs/PoolLemmas.vo Proofs/PoolLemmas.glob Proofs/PoolLemmas.v.beautified Proofs/PoolLemmas.required_vo: Proofs/PoolLemmas.v Model/Pool.vo
-Proofs/PoolLemmas.vio: Proofs/PoolLemmas.v Model/Pool.vio
-Proofs/PoolLemmas.vos Proofs/PoolLemmas.vok Proofs/PoolLemmas.required_vos: Proofs/PoolLemmas.v Model/Pool.vos
-Proofs/PoolMeasure.vo Proofs/PoolMeasure.glob Proofs/PoolMeasure.v.beautified Proofs/PoolMeasure.required_vo: Proofs/PoolMeasure.v Model/Pool.vo Spec/PoolS.vo Proofs/PoolLemmas.vo Proofs/PoolInv.vo Proofs/PoolP.vo
-Proofs/PoolMeasure.vio: Proofs/PoolMeasure.v Model/Pool.vio Spec/PoolS.vio Proofs/PoolLemmas.vio Proofs/PoolInv.vio Proofs/PoolP.vio
-Proofs/PoolMeasure.vos Proofs/PoolMeasure.vok Proofs/PoolMeasure.required_vos: Proofs/PoolMeasure.v Model/Pool.vos Spec/PoolS.vos Proofs/PoolLemmas.vos Proofs/PoolInv.vos Proofs/PoolP.vos
-Proofs/PoolP.vo Proofs/PoolP.glob Proofs/PoolP.v.beautified Proofs/PoolP.required_vo: Proofs/PoolP.v Model/Pool.vo Spec/PoolS.vo Proofs/PoolLemmas.vo Proofs/PoolInv.vo Proofs/PoolStepA.vo Proofs/PoolStepB.vo Proofs/PoolStepC.vo Proofs/PoolStepD.vo Proofs/PoolStepE.vo
-Proofs/PoolP.vio: Proofs/PoolP.v Model/Pool.vio Spec/PoolS.vio Proofs/PoolLemmas.vio Proofs/PoolInv.vio Proofs/PoolStepA.vio Proofs/PoolStepB.vio Proofs/PoolStepC.vio Proofs/PoolStepD.vio Proofs/PoolStepE.vio
-Proofs/PoolP.vos Proofs/PoolP.vok Proofs/PoolP.required_vos: Proofs/PoolP.v Model/Pool.vos Spec/PoolS.vos Proofs/PoolLemmas.vos Proofs/PoolInv.vos Proofs/PoolStepA.vos Proofs/PoolStepB.vos Proofs/PoolStepC.vos Proofs/PoolStepD.vos Proofs/PoolStepE.vos
-Proofs/PoolProgress.vo Proofs/PoolProgress.glob Proofs/PoolProgress.v.beautified Proofs/PoolProgress.required_vo: Proofs/PoolProgress.v Model/Pool.vo Spec/PoolS.vo Proofs/PoolLemmas.vo Proofs/PoolInv.vo Proofs/PoolP.vo
-Proofs/PoolProgress.vio: Proofs/PoolProgress.v Model/Pool.vio Spec/PoolS.vio Proofs/PoolLemmas.vio Proofs/PoolInv.vio Proofs/PoolP.vio
-Proofs/PoolProgress.vos Proofs/PoolProgress.vok Proofs/PoolProgress.required_vos: Proofs/PoolProgress.v Model/Pool.vos Spec/PoolS.vos Proofs/PoolLemmas.vos Proofs/PoolInv.vos Proofs/PoolP.vos
-Proofs/PoolStepA.vo Proofs/PoolStepA.glob Proofs/PoolStepA.v.beautified Proofs/PoolStepA.required_vo: Proofs/PoolStepA.v Model/Pool.vo Proofs/PoolLemmas.vo Proofs/PoolInv.vo
-Proofs/PoolStepA.vio: Proofs/PoolStepA.v Model/Pool.vio Proofs/PoolLemmas.vio Proofs/PoolInv.vio
-Proofs/PoolStepA.vos Proofs/PoolStepA.vok Proofs/PoolStepA.required_vos: Proofs/PoolStepA.v Model/Pool.vos Proofs/PoolLemmas.vos Proofs/PoolInv.vos
-Proofs/PoolStepB.vo Proofs/PoolStepB.glob Proofs/PoolStepB.v.beautified Proofs/PoolStepB.required_vo: Proofs/PoolStepB.v Model/Pool.vo Proofs/PoolLemmas.vo Proofs/PoolInv.vo
-Proofs/PoolStepB.vio: Proofs/PoolStepB.v Model/Pool.vio Proofs/PoolLemmas.vio Proofs/PoolInv.vio
-Proofs/PoolStepB.vos Proofs/PoolStepB.vok Proofs/PoolStepB.required_vos: Proofs/PoolStepB.v Model/Pool.vos Proofs/PoolLemmas.vos Proofs/PoolInv.vos
-Proofs/PoolStepC.vo Proofs/PoolStepC.glob Proofs/PoolStepC.v.beautified Proofs/PoolStepC.required_vo: Proofs/PoolStepC.v Model/Pool.vo Proofs/PoolLemmas.vo Proofs/PoolInv.vo
-Proofs/PoolStepC.vio: Proofs/PoolStepC.v Model/Pool.vio Proofs/PoolLemmas.vio Proofs/PoolInv.vio
-Proofs/PoolStepC.vos Proofs/PoolStepC.vok Proofs/PoolStepC.required_vos: Proofs/PoolStepC.v Model/Pool.vos Proofs/PoolLemmas.vos Proofs/PoolInv.vos
-Proofs/PoolStepD.vo Proofs/PoolStepD.glob Proofs/PoolStepD.v.beautified Proofs/PoolStepD.required_vo: Proofs/PoolStepD.v Model/Pool.vo Proofs/PoolLemmas.vo Proofs/PoolInv.vo
-Proofs/PoolStepD.vio: Proofs/PoolStepD.v Model/Pool.vio Proofs/PoolLemmas.vio Proofs/PoolInv.vio
-Proofs/PoolStepD.vos Proofs/PoolStepD.vok Proofs/PoolStepD.required_vos: Proofs/PoolStepD.v Model/Pool.vos Proofs/PoolLemmas.vos Proofs/PoolInv.vos
-Proofs/PoolStepE.vo Proofs/PoolStepE.glob Proofs/PoolStepE.v.beautified Proofs/PoolStepE.required_vo: Proofs/PoolStepE.v Model/Pool.vo Proofs/PoolLemmas.vo Proofs/PoolInv.vo
-Proofs/PoolStepE.vio: Proofs/PoolStepE.v Model/Pool.vio Proofs/PoolLemmas.vio Proofs/PoolInv.vio
-Proofs/PoolStepE.vos Proofs/PoolStepE.vok Proofs/PoolStepE.required_vos: Proofs/PoolStepE.v Model/Pool.vos Proofs/PoolLemmas.vos Proofs/PoolInv.vos
-Proofs/PoolTraceP.vo Proofs/PoolTraceP.glob Proofs/PoolTraceP.v.beautified Proofs/PoolTraceP.required_vo: Proofs/PoolTraceP.v Model/Pool.vo Model/PoolTrace.vo Spec/PoolS.vo Proofs/PoolP.vo
-Proofs/PoolTraceP.vio: Proofs/PoolTraceP.v Model/Pool.vio Model/PoolTrace.vio Spec/PoolS.vio Proofs/PoolP.vio
-Proofs/PoolTraceP.vos Proofs/PoolTraceP.vok Proofs/PoolTraceP.required_vos: Proofs/PoolTraceP.v Model/Pool.vos Model/PoolTrace.vos Spec/PoolS.vos Proofs/PoolP.vos
-Proofs/PoolWitness.vo Proofs/PoolWitness.glob Proofs/PoolWitness.v.beautified Proofs/PoolWitness.required_vo: Proofs/PoolWitness.v Model/Pool.vo Spec/PoolS.vo
-Proofs/PoolWitness.vio: Proofs/PoolWitness.v Model/Pool.vio Spec/PoolS.vio
-Proofs/PoolWitness.vos Proofs/PoolWitness.vok Proofs/PoolWitness.required_vos: Proofs/PoolWitness.v Model/Pool.vos Spec/PoolS.vos
 Props/C14.vo Props/C14.glob Props/C14.v.beautified Props/C14.required_vo: Props/C14.v Base/ListX.vo Model/NameWire.vo Spec/NameWireS.vo Spec/NameRepr.vo Proofs/NameWireP.vo Proofs/NameWireSP.vo
 Props/C14.vio: Props/C14.v Base/ListX.vio Model/NameWire.vio Spec/NameWireS.vio Spec/NameRepr.vio Proofs/NameWireP.vio Proofs/NameWireSP.vio
 Props/C14.vos Props/C14.vok Props/C14.required_vos: Props/C14.v Base/ListX.vos Model/NameWire.vos Spec/NameWireS.vos Spec/NameRepr.vos Proofs/NameWireP.vos Proofs/NameWireSP.vos
-Props/C29.vo Props/C29.glob Props/C29.v.beautified Props/C29.required_vo: Props/C29.v Model/Pool.vo Model/PoolTrace.vo Spec/PoolS.vo Proofs/PoolLemmas.vo Proofs/PoolInv.vo Proofs/PoolP.vo Proofs/PoolProgress.vo Proofs/PoolMeasure.vo Proofs/PoolTraceP.vo Proofs/PoolWitness.vo
-Props/C29.vio: Props/C29.v Model/Pool.vio Model/PoolTrace.vio Spec/PoolS.vio Proofs/PoolLemmas.vio Proofs/PoolInv.vio Proofs/PoolP.vio Proofs/PoolProgress.vio Proofs/PoolMeasure.vio Proofs/PoolTraceP.vio Proofs/PoolWitness.vio
-Props/C29.vos Props/C29.vok Props/C29.required_vos: Props/C29.v Model/Pool.vos Model/PoolTrace.vos Spec/PoolS.vos Proofs/PoolLemmas.vos Proofs/PoolInv.vos Proofs/PoolP.vos Proofs/PoolProgress.vos Proofs/PoolMeasure.vos Proofs/PoolTraceP.vos Proofs/PoolWitness.vos
 Spec/NameRepr.vo Spec/NameRepr.glob Spec/NameRepr.v.beautified Spec/NameRepr.required_vo: Spec/NameRepr.v Model/NameWire.vo Spec/NameWireS.vo
 Spec/NameRepr.vio: Spec/NameRepr.v Model/NameWire.vio Spec/NameWireS.vio
 Spec/NameRepr.vos Spec/NameRepr.vok Spec/NameRepr.required_vos: Spec/NameRepr.v Model/NameWire.vos Spec/NameWireS.vos
 Spec/NameWireS.vo Spec/NameWireS.glob Spec/NameWireS.v.beautified Spec/NameWireS.required_vo: Spec/NameWireS.v Base/Res.vo Base/Octets.vo
 Spec/NameWireS.vio: Spec/NameWireS.v Base/Res.vio Base/Octets.vio
 Spec/NameWireS.vos Spec/NameWireS.vok Spec/NameWireS.required_vos: Spec/NameWireS.v Base/Res.vos Base/Octets.vos
-Spec/PoolS.vo Spec/PoolS.glob Spec/PoolS.v.beautified Spec/PoolS.required_vo: Spec/PoolS.v Model/Pool.vo
-Spec/PoolS.vio: Spec/PoolS.v Model/Pool.vio
-Spec/PoolS.vos Spec/PoolS.vok Spec/PoolS.required_vos: Spec/PoolS.v Model/Pool.vos
